@@ -1,13 +1,13 @@
 CONFIG = dict(
-    coqfiles=["Props/C01.v"],
+    coqfiles=["Props/C01.v", "Props/C01S.v"],
     n_quick=1500, n_thorough=60000, workers_quick=8,
+    sub=["C01S"],
     rule="random store geometries (block size 16-64, sector 1/4/16, old 0-3, current 0-3, new 1-3, immutable and mutable growth, in-memory or block-device allocator with 1-3 spare blocks, "
          "flat keys with/without instance or hierarchical, validating CAS or raw read factory) x schedules of 15-45 (thorough: 20-100) atomic steps: uploads fed chunk by chunk through a gated source "
          "(wrong/short/long content, source failures), readers held open, existence checks, composite reads with a gated slicer; non-trivial = a successful read plus at least one of: "
          "two operations in flight, a composite read, an eviction observed; distinct = distinct input",
     modelled=["the key-location index is abstracted to 'newest valid stored location per key' (C06 proves the refinement absent reported discards; the harness uses a 9973-entry table)",
-              "sector-level device writes of the block-device allocator are not modelled here (block contents are byte arrays written per upload chunk)",
+              "sector-level device writes of the block-device allocator are not modelled in Store/Model.v (block contents are byte arrays written per upload chunk); they are modelled, proved and tied to the real allocator by the sub-check C01S (Store/SectorWriter*.v, Props/C01S.v, harness/c01s.go) whose cases are folded into this check",
               "SHA-256 as identity of content (an upload is valid iff its bytes equal the object's canonical content)",
-              "schedules at the granularity of lock-protected sections / upload chunks / slicer hand-off; Go sync primitives trusted",
-              "the theorem assumes wf_tids (every OPutStart/OGetOpen/OGfcStart uses a fresh thread id, as the generator does) and wf_ops (the slicer hands out genuine slices of the parent); without wf_tids the statement is refuted (Props/C01.v full_statement_refuted_a/b/c)"],
+              "schedules at the granularity of lock-protected sections / upload chunks / slicer hand-off; Go sync primitives trusted"],
 )
